@@ -46,7 +46,7 @@ import (
 )
 
 var repoDir = flag.String("repo", "", "goyang source tree the goyang command is built from (default: $VERIF_REPO, else the directory this runner's goyang dependency was replaced by at build time, else /repo)")
-var workDir = flag.String("work", "/verif/.work/c05", "scratch directory")
+var workDir = flag.String("work", lib.Root()+"/.work/c05", "scratch directory")
 var nSets = flag.Int("n", 0, "number of source sets (0 = tier default)")
 
 // ---------- the isolated worker ----------
